@@ -28,11 +28,11 @@ def _dispatch(prop, t):
             "evaluate() = the specification's transitive substitution, keys()/explain() include every key it reads; "
             "non-trivial = the graph or the dictionary contains a template",
             ["TLC + Json module trusted", "confectioner modelled as it behaves", "template parameters never contain braces"])
-    if prop in ("C05", "C10", "C11", "C03", "C08", "C01", "C02", "C06", "C12", "C16", "C19", "C20"):
+    if prop in ("C05", "C10", "C11", "C03", "C08", "C01", "C02", "C06", "C12", "C16", "C19", "C20", "C18"):
         from . import check_expr
         fams = {"C05": ["combinators"], "C10": ["combinators", "options:light"], "C11": ["combinators", "options:light"],
                 "C03": ["combinators", "options:light", "presets:light"], "C08": ["presets"], "C01": ["caching", "presets:light"],
-                "C02": ["caching"], "C06": ["combinators", "caching"], "C12": ["failing", "failing4"], "C16": ["caching"], "C19": ["classes"], "C20": ["pickling"]}[prop]
+                "C02": ["caching"], "C06": ["combinators", "caching"], "C12": ["failing", "failing4"], "C16": ["caching"], "C19": ["classes"], "C20": ["pickling"], "C18": ["combinators:light", "caching"]}[prop]
         extra = None
         if prop == "C10":
             from . import check_pipelines
@@ -40,6 +40,9 @@ def _dispatch(prop, t):
         if prop == "C20":
             from . import verdicts
             extra = verdicts.c20_fixed_probes
+        if prop == "C18":
+            from . import reflect
+            extra = reflect.check_kinds
         return check_expr.check(prop, t, fams, check_expr.RULES[prop], check_expr.ASSUME, extra=extra)
     if prop == "C13":
         from . import check_pipelines
